@@ -13,6 +13,7 @@ mod mutimg;
 mod partition;
 mod race;
 mod seq;
+mod term;
 mod util;
 
 use std::env;
@@ -33,6 +34,8 @@ fn main() {
         "cache" => cachem::run(&opts),
         "conc" => conc::run(&opts),
         "race" => race::run(&opts),
+        "term" => term::run(&opts),
+        "termchild" => term::termchild(&opts),
         "inflight" => inflight::run(&opts),
         "asanselftest" => {
             // a deliberate heap out-of-bounds read: visible only to an instrumented build
